@@ -121,3 +121,103 @@ fn concurrent_delete_expired_never_sweeps_a_live_record() {
         });
     }
 }
+
+/// Bounded search (labelled bounded): random histories of store operations over three ids, with TTLs that need no
+/// waiting — a zero TTL is a record that has already expired (`deadline <= now` on every later access), 5 s and 1 h
+/// ones outlive the test — compared after every operation with the map-with-expiry of the property statement.
+#[tokio::test]
+async fn bounded_search_over_store_histories() {
+    use std::num::NonZeroUsize;
+    #[derive(Clone)] struct Rec { state: State, ttl: Duration }
+    let thorough = std::env::var("VERIF_TIER").map(|t| t == "thorough").unwrap_or(false);
+    let n_histories: u64 = if thorough { 60_000 } else { 6_000 };
+    let ttls = [Duration::ZERO, Duration::from_secs(5), LONG];
+    let mut seed: u64 = 0x9E3779B97F4A7C15;
+    let mut rnd = |n: u64| -> u64 { seed ^= seed << 13; seed ^= seed >> 7; seed ^= seed << 17; seed % n };
+    for h in 0..n_histories {
+        let s = InMemorySessionStore::new();
+        let ids = [SessionId::random(), SessionId::random(), SessionId::random()];
+        let mut live: HashMap<usize, Rec> = HashMap::new();   // the reference model: live records only
+        let mut maybe_dead: usize = 0;                        // upper bound on expired records still held
+        let mut log: Vec<String> = Vec::new();
+        for step in 0..14 {
+            let (i, j) = (rnd(3) as usize, rnd(3) as usize);
+            let ttl = ttls[rnd(3) as usize];
+            let state = st(["a", "b"][rnd(2) as usize], (h * 100 + step) as i64);
+            let ctx = |log: &Vec<String>| format!("history {h}: {}", log.join("; "));
+            match rnd(8) {
+                0 | 1 => {
+                    log.push(format!("create({i}, ttl={ttl:?})"));
+                    let r = s.create(&ids[i], rec(&state, ttl)).await;
+                    if live.contains_key(&i) {
+                        assert!(matches!(r, Err(CreateError::DuplicateId(_))), "create over a live record must fail with DuplicateId — {}", ctx(&log));
+                    } else {
+                        assert!(r.is_ok(), "create on an absent/expired id must succeed — {}", ctx(&log));
+                        if ttl.is_zero() { maybe_dead += 1 } else { live.insert(i, Rec { state, ttl }); }
+                    }
+                }
+                2 => {
+                    log.push(format!("update({i}, ttl={ttl:?})"));
+                    let r = s.update(&ids[i], rec(&state, ttl)).await;
+                    if live.contains_key(&i) {
+                        assert!(r.is_ok(), "update of a live record must succeed — {}", ctx(&log));
+                        if ttl.is_zero() { live.remove(&i); maybe_dead += 1 } else { live.insert(i, Rec { state, ttl }); }
+                    } else {
+                        assert!(matches!(r, Err(UpdateError::UnknownIdError(_))), "update of an absent/expired record must fail with UnknownId — {}", ctx(&log));
+                    }
+                }
+                3 => {
+                    log.push(format!("update_ttl({i}, ttl={ttl:?})"));
+                    let r = s.update_ttl(&ids[i], ttl).await;
+                    if live.contains_key(&i) {
+                        assert!(r.is_ok(), "update_ttl of a live record must succeed — {}", ctx(&log));
+                        if ttl.is_zero() { live.remove(&i); maybe_dead += 1 } else { live.get_mut(&i).unwrap().ttl = ttl; }
+                    } else {
+                        assert!(matches!(r, Err(UpdateTtlError::UnknownId(_))), "update_ttl of an absent/expired record must fail with UnknownId — {}", ctx(&log));
+                    }
+                }
+                4 => {
+                    log.push(format!("delete({i})"));
+                    let r = s.delete(&ids[i]).await;
+                    if live.remove(&i).is_some() { assert!(r.is_ok(), "delete of a live record must succeed — {}", ctx(&log)); }
+                    else { assert!(matches!(r, Err(DeleteError::UnknownId(_))), "delete of an absent/expired record must fail with UnknownId — {}", ctx(&log)); }
+                }
+                5 | 6 => {
+                    log.push(format!("change_id({i} -> {j})"));
+                    let r = s.change_id(&ids[i], &ids[j]).await;
+                    match (live.contains_key(&i), live.contains_key(&j)) {
+                        (true, false) => { assert!(r.is_ok(), "change_id of a live record onto a free id must succeed — {}", ctx(&log)); let m = live.remove(&i).unwrap(); live.insert(j, m); }
+                        (false, false) => assert!(matches!(r, Err(ChangeIdError::UnknownId(_))), "change_id of an absent/expired record must fail with UnknownId — {}", ctx(&log)),
+                        (true, true) => assert!(matches!(r, Err(ChangeIdError::DuplicateId(_))), "change_id onto a live id must fail with DuplicateId — {}", ctx(&log)),
+                        (false, true) => assert!(matches!(r, Err(ChangeIdError::DuplicateId(_)) | Err(ChangeIdError::UnknownId(_))), "change_id must fail — {}", ctx(&log)),
+                    }
+                }
+                _ => {
+                    let batch = [None, NonZeroUsize::new(1), NonZeroUsize::new(2), NonZeroUsize::new(5)][rnd(4) as usize];
+                    log.push(format!("delete_expired({batch:?})"));
+                    let n = s.delete_expired(batch).await.expect("delete_expired never fails");
+                    assert!(n <= maybe_dead, "delete_expired reports {n} removals but at most {maybe_dead} records can have expired — {}", ctx(&log));
+                    if let Some(b) = batch { assert!(n <= b.get(), "batch size ignored — {}", ctx(&log)); }
+                    if batch.is_none() {
+                        maybe_dead = 0;
+                        assert_eq!(s.delete_expired(None).await.unwrap(), 0, "an unbatched purge left expired records behind — {}", ctx(&log));
+                    }
+                }
+            }
+            // observe every id after every operation
+            for k in 0..3 {
+                let got = s.load(&ids[k]).await.expect("load never fails");
+                match (live.get(&k), got) {
+                    (None, None) => {}
+                    (Some(m), Some(g)) => {
+                        assert_eq!(g.state, m.state, "load({k}) returned a different state than the last successful write — {}", ctx(&log));
+                        assert!(g.ttl <= m.ttl && g.ttl + Duration::from_secs(3) > m.ttl,
+                            "load({k}) reports {:?} left of a TTL of {:?} written an instant ago — {}", g.ttl, m.ttl, ctx(&log));
+                    }
+                    (None, Some(_)) => panic!("load({k}) returned an expired, deleted or never created record — {}", ctx(&log)),
+                    (Some(_), None) => panic!("load({k}) lost a live record — {}", ctx(&log)),
+                }
+            }
+        }
+    }
+}
